@@ -22,6 +22,13 @@ MatchFacts.lean:
                   mutating method on an object
   matchFresh    : (function, name) for the local names bound to a fresh
                   display / comprehension / constructor call
+  combSelfWrites: (class, method, attribute) for every statement of a method other than
+                  __init__ of the spec classes of matching.py (_Bool, And, Or, Not, _MExpr,
+                  _MSubspec, _MType, Switch, Check, Match, Regex, Optional, Required) that
+                  stores into / deletes / calls a mutating method on `self.<attribute>…`, or
+                  calls setattr / delattr / object.__setattr__ on `self`, or reaches the instance
+                  dict through vars(self) (spec objects must be immutable once built: expected
+                  empty; it is what lets the model keep spec objects as values)
 """
 import ast
 
@@ -324,7 +331,65 @@ def extract(ctx):
     muts = sorted(set(muts))
     fresh = sorted(set(fresh))
 
+    # ---- instance state written outside __init__ (C10: an object evaluated earlier, then used again)
+    SPEC_CLASSES = ('_Bool', 'And', 'Or', 'Not', '_MExpr', '_MSubspec', '_MType', 'Switch', 'Check',
+                    'Match', 'Regex', 'Optional', 'Required')
+
+    def self_attr(node):
+        """'attr' when node is self.attr, self.attr[...], self.attr.x.y …; '<vars>' for vars(self)[…]"""
+        chain = []
+        while isinstance(node, (ast.Attribute, ast.Subscript)):
+            if isinstance(node, ast.Attribute):
+                chain.append(node.attr)
+            node = node.value
+        if isinstance(node, ast.Name) and node.id == 'self' and chain:
+            return chain[-1]
+        if (isinstance(node, ast.Call) and isinstance(node.func, ast.Name) and node.func.id == 'vars'
+                and len(node.args) == 1 and isinstance(node.args[0], ast.Name) and node.args[0].id == 'self'):
+            return '<vars>'
+        return None
+
+    self_writes = []
+    for cname in SPEC_CLASSES:
+        cdef = find_def(mt, cname)
+        if cdef is None:
+            P.add('class %s not found' % cname)
+            self_writes.append((cname, '<class not found>', ''))
+            continue
+        for fn in cdef.body:
+            if not isinstance(fn, ast.FunctionDef) or fn.name == '__init__':
+                continue
+            for node in ordered([n for n in ast.walk(fn) if hasattr(n, 'lineno')]):
+                targets = []
+                if isinstance(node, (ast.Assign, ast.Delete)):
+                    targets = node.targets
+                elif isinstance(node, (ast.AugAssign, ast.AnnAssign)):
+                    targets = [node.target]
+                elif isinstance(node, (ast.For, ast.AsyncFor)):
+                    targets = [node.target]
+                elif isinstance(node, ast.NamedExpr):
+                    targets = [node.target]
+                flat = []
+                for t in targets:
+                    flat += list(t.elts) if isinstance(t, (ast.Tuple, ast.List)) else [t]
+                for t in flat:
+                    a = self_attr(t)
+                    if a is not None:
+                        self_writes.append((cname, fn.name, a))
+                if isinstance(node, ast.Call):
+                    f = node.func
+                    if isinstance(f, ast.Attribute) and f.attr in MUTATORS:
+                        a = self_attr(f.value)
+                        if a is not None:
+                            self_writes.append((cname, fn.name, a))
+                    fname = ast.unparse(f)
+                    if fname in ('setattr', 'delattr', 'object.__setattr__', 'object.__delattr__') \
+                            and node.args and isinstance(node.args[0], ast.Name) and node.args[0].id == 'self':
+                        self_writes.append((cname, fn.name, '<%s %s>' % (
+                            fname, ast.unparse(node.args[1]) if len(node.args) > 1 else '?')))
+
     defs = [
+        ('combSelfWrites', 'List (String × String × String)', self_writes),
         ('matchRaises', 'List (String × List String)', raises),
         ('matchCatches', 'List (String × List (List String))', catches),
         ('mRecorded', 'List (String × String × String)', recorded),
